@@ -12,6 +12,7 @@ import (
 	"fmt"
 	"slices"
 	"sort"
+	"strings"
 	"testing"
 	"testing/synctest"
 	"time"
@@ -271,6 +272,66 @@ func c18kReadCase(version string, ttl int) (obs, sig, msg string) {
 	return "read ok", "", ""
 }
 
+// c18kListenIndependence: a session's subscriptions are independent of each other.  Under
+// 2026-07-28 each cs.Subscribe(uri) is its own subscriptions/listen next to the session's main
+// listen (list-changed kinds); ending one of them (Unsubscribe) must not end the others.
+func c18kListenIndependence(version string) (obs, sig, msg string) {
+	fail := func(s, format string, a ...any) (string, string, string) {
+		return "", "c18 kinds listen-independence " + s, fmt.Sprintf(format, a...) + fmt.Sprintf(" [version=%s]", version)
+	}
+	ctx := context.Background()
+	s := c18kServer(0)
+	for _, kk := range c18kKinds() {
+		kk.add(s, "base")
+	}
+	for _, u := range []string{"file:///r1", "file:///r2"} {
+		s.AddResource(&Resource{URI: u, Name: u}, func(context.Context, *ReadResourceRequest) (*ReadResourceResult, error) {
+			return &ReadResourceResult{Contents: []*ResourceContents{{URI: u, Text: "x"}}}, nil
+		})
+	}
+	var n c18kCounts
+	cs, err := c18kConnect(s, version, &n)
+	if err != nil {
+		return fail("connect", "%v", err)
+	}
+	defer cs.Close()
+	synctest.Wait()
+	settle := func() {
+		time.Sleep(time.Second)
+		synctest.Wait()
+	}
+	if err := cs.Subscribe(ctx, &SubscribeParams{URI: "file:///r1"}); err != nil {
+		return fail("subscribe-failed", "%v", err)
+	}
+	if err := cs.Subscribe(ctx, &SubscribeParams{URI: "file:///r2"}); err != nil {
+		return fail("subscribe-failed", "%v", err)
+	}
+	settle()
+	if err := cs.Unsubscribe(ctx, &UnsubscribeParams{URI: "file:///r2"}); err != nil {
+		return fail("unsubscribe-failed", "%v", err)
+	}
+	settle()
+	// the other resource subscription is still served
+	before := n.updated
+	s.ResourceUpdated(ctx, &ResourceUpdatedNotificationParams{URI: "file:///r1"})
+	s.ResourceUpdated(ctx, &ResourceUpdatedNotificationParams{URI: "file:///r2"})
+	settle()
+	if n.updated != before+1 {
+		return fail("updated-notification-count", "subscribed to r1 and r2, then unsubscribed r2: an update of both was announced with %d resources/updated notifications, want 1 (r1)", n.updated-before)
+	}
+	// ... and so are the list-changed subscriptions of every kind
+	for _, k := range c18kKinds() {
+		b := [3]int{n.tools, n.prompts, n.resources}
+		k.add(s, "added-later")
+		settle()
+		got := map[string]int{"tools": n.tools - b[0], "prompts": n.prompts - b[1], "resources": n.resources - b[2]}[k.note]
+		if got == 0 {
+			return fail("notification-lost "+k.name, "after subscribing to two resources and unsubscribing one of them, a %s change is no longer announced to the session (it still has its list-changed handlers)", k.name)
+		}
+	}
+	return "listen-independence ok", "", ""
+}
+
 func TestVerifC18Kinds(t *testing.T) {
 	env := verifx.LoadEnv("C18")
 	res := env.NewResult()
@@ -302,6 +363,114 @@ func TestVerifC18Kinds(t *testing.T) {
 			}
 			run(fmt.Sprintf("read version=%s ttl=%d", version, ttl), func() (string, string, string) { return c18kReadCase(version, ttl) })
 		}
+		run(fmt.Sprintf("listen-independence version=%s", version), func() (string, string, string) { return c18kListenIndependence(version) })
 	}
+	env.Finish(res)
+}
+
+// ---- session churn around the debounce timer: changes, sessions closing before the timer fires,
+// changes while nobody is connected, new sessions connecting - in every order up to the depth.
+// At the end of every history (plus one second) each live session has handled a tools/list_changed
+// notification at least as late as the last change made while it was connected.
+
+type c18cSess struct {
+	cs          *ClientSession
+	lastNote    time.Duration // virtual time of the last notification handled (-1: none)
+	changeSince time.Duration // virtual time of the last change made while connected (-1: none)
+}
+
+func c18cRun(t *testing.T, hist []int) (out verifx.SearchResult) {
+	defer func() {
+		if r := recover(); r != nil {
+			out = verifx.SearchResult{Bad: fmt.Sprintf("panic / bubble failure: %v", r), Sig: "c18 churn panic-or-leak"}
+		}
+	}()
+	synctest.Test(t, func(t *testing.T) { out = c18cInBubble(hist) })
+	return out
+}
+
+var c18cOps = []string{"a legacy session connects", "the oldest session closes", "a tool is added/removed", "5ms pass", "20ms pass"}
+
+func c18cInBubble(hist []int) verifx.SearchResult {
+	ctx := context.Background()
+	t0 := time.Now()
+	s := NewServer(&Implementation{Name: "srv", Version: "1"}, &ServerOptions{Logger: quietLogger})
+	handler := func(context.Context, *CallToolRequest) (*CallToolResult, error) { return &CallToolResult{}, nil }
+	s.AddTool(&Tool{Name: "base", InputSchema: map[string]any{"type": "object"}}, handler)
+	var live []*c18cSess
+	defer func() {
+		for _, x := range live {
+			x.cs.Close()
+		}
+	}()
+	present := false
+	connects := 0
+	for _, op := range hist {
+		switch op {
+		case 0:
+			if len(live) == 2 || connects == 3 {
+				return verifx.SearchResult{Skip: true}
+			}
+			connects++
+			x := &c18cSess{lastNote: -1, changeSince: -1}
+			cl := NewClient(&Implementation{Name: "cli", Version: "1"}, &ClientOptions{Logger: quietLogger,
+				ToolListChangedHandler: func(context.Context, *ToolListChangedRequest) { x.lastNote = time.Since(t0) }})
+			ct, st := NewInMemoryTransports()
+			if _, err := s.Connect(ctx, st, nil); err != nil {
+				return verifx.SearchResult{Bad: err.Error(), Sig: "c18 churn setup"}
+			}
+			cs, err := cl.Connect(ctx, ct, &ClientSessionOptions{ProtocolVersion: "2025-06-18"})
+			if err != nil {
+				return verifx.SearchResult{Bad: err.Error(), Sig: "c18 churn setup"}
+			}
+			x.cs = cs
+			live = append(live, x)
+		case 1:
+			if len(live) == 0 {
+				return verifx.SearchResult{Skip: true}
+			}
+			live[0].cs.Close()
+			live = live[1:]
+		case 2:
+			if present {
+				s.RemoveTools("x")
+			} else {
+				s.AddTool(&Tool{Name: "x", InputSchema: map[string]any{"type": "object"}}, handler)
+			}
+			present = !present
+			for _, x := range live {
+				x.changeSince = time.Since(t0)
+			}
+		case 3:
+			time.Sleep(5 * time.Millisecond)
+		case 4:
+			time.Sleep(20 * time.Millisecond)
+		}
+		synctest.Wait()
+	}
+	time.Sleep(time.Second)
+	synctest.Wait()
+	var names []string
+	for _, op := range hist {
+		names = append(names, c18cOps[op])
+	}
+	for i, x := range live {
+		if x.changeSince >= 0 && x.lastNote < x.changeSince {
+			return verifx.SearchResult{Sig: "c18 churn notification-lost", Bad: fmt.Sprintf("live session #%d: the last change made while it was connected happened at %v, its last tools/list_changed notification was handled at %v (-1ns = never), one second after the history [history: %s]", i+1, x.changeSince, x.lastNote, strings.Join(names, " ; "))}
+		}
+	}
+	// state key: the operations themselves (timer state is not observable): exhaustive up to the depth
+	return verifx.SearchResult{Key: fmt.Sprint(hist), Obs: fmt.Sprintf("live=%d", len(live))}
+}
+
+func TestVerifC18Churn(t *testing.T) {
+	env := verifx.LoadEnv("C18")
+	res := env.NewResult()
+	d := env.Pick(6, 8)
+	env.RunSearch(res, &verifx.Search{
+		Name: "session-churn-around-the-debounce-timer", NumOps: len(c18cOps), OpName: func(i int) string { return c18cOps[i] },
+		MaxDepth: d, ShallowDepth: d,
+		Run: func(h []int) verifx.SearchResult { return c18cRun(t, h) },
+	})
 	env.Finish(res)
 }
